@@ -18,7 +18,7 @@
 #define PAYLOAD_COPY_NOTHROW 0
 #endif
 #define FRAME vx_exc, g_thrown_tok, g_current_exception, g_caught, g_set_value, g_set_error, g_set_stopped, g_tok, g_has_payload, g_receiver_moved, \
-  g_f_calls, g_f_arg, g_f_result, g_f_index, g_f_calls_victim, g_os_resets, g_os_reset_before_signal, g_connects, g_conn_sender, g_conn_op, \
+  g_f_calls, g_f_arg, g_f_result, g_f_index, g_f_calls_victim, g_os_resets, g_os_reset_before_signal, g_ref_bound, g_ref_dangling, g_connects, g_conn_sender, g_conn_op, \
   g_succ_starts, g_succ_emplaced_at_start, g_sched_calls, g_sched_starts, g_parked_at_sched_start, g_sched_emplaced_at_start, g_child_starts, \
   g_releases, g_alive, g_m_calls, g_m_id, g_m_tok, vx_op->predecessor_ts, vx_op->predecessor_error, vx_op->successor_op_state, vx_op->ts, vx_op->op_state_has, \
   vx_op->scheduler_op_state_has, vx_op->scheduler_op_tok, vx_op->started
